@@ -67,7 +67,21 @@ def console_entry():
 
 def cli_cmd(args):
     mod, fn = console_entry().split(":")
-    return [PY, "-c", "import sys; from %s import %s as _m; sys.exit(_m())" % (mod, fn)] + [str(a) for a in args]
+    # PV_POOL_WORKERS=<n> (set by the harness for some C18 variations): every ProcessPoolExecutor the command creates gets n
+    # worker processes whatever max_workers it asks for - the schedule in which a worker that became free early executes several
+    # chains back to back.  Patched in the command's own interpreter only; inert when the variable is unset.
+    code = (
+        "import sys, os\n"
+        "if os.environ.get('PV_POOL_WORKERS'):\n"
+        "    import concurrent.futures.process as _p\n"
+        "    _o = _p.ProcessPoolExecutor.__init__\n"
+        "    def _i(self, max_workers=None, *a, **k):\n"
+        "        _o(self, int(os.environ['PV_POOL_WORKERS']), *a, **k)\n"
+        "    _p.ProcessPoolExecutor.__init__ = _i\n"
+        "from %s import %s as _m\n"
+        "sys.exit(_m())\n" % (mod, fn)
+    )
+    return [PY, "-c", code] + [str(a) for a in args]
 
 
 def base_env(hashseed="0", extra=None):
@@ -82,7 +96,7 @@ def base_env(hashseed="0", extra=None):
         env.pop("PYTHONHASHSEED", None)
     else:
         env["PYTHONHASHSEED"] = str(hashseed)
-    for k in ("PHYCLONE_VERIF_START_DELAYS", "PHYCLONE_VERIF_END_DELAYS"):
+    for k in ("PHYCLONE_VERIF_START_DELAYS", "PHYCLONE_VERIF_END_DELAYS", "PV_POOL_WORKERS"):
         env.pop(k, None)
     if extra:
         env.update({k: str(v) for k, v in extra.items()})
